@@ -1,5 +1,5 @@
 #!/usr/bin/env python3
-"""Writes seeded/<id>-{C,D,E,F}/meta.json (second and third round of independent seeders) from the confirmation results
+"""Writes seeded/<id>-{C..H}/meta.json (second, third and fourth round of independent seeders) from the confirmation results
 (tools/seedconfirm.sh, one json per seed) and the detection results (tools/seedrun.sh output, one txt per seed).
 usage: mkseedmeta2.py <confirm dir>[,<confirm dir>...] <detection dir>"""
 import json, os, re, sys
@@ -85,6 +85,39 @@ NEEDS = {
  "C19-F": "one of the 57 largest generator states (draw in (0.5, 0.5 + 2.6e-8]) for double / long double",
  "C20-E": "solvers of one instantiation but different n in one process, the other one reaching factorize_from first, and a near-breakdown residual between eps*sqrt(n_a) and eps*sqrt(n_b)",
  "C20-F": "two general solvers that both reach the fallback directions of expand_basis (matrices with exact zero rows) in another order than sequentially",
+ # ---- round 4
+ "C01-G": "the history init(); compute(); init(v0) on one object, results read before the next compute() (convergence flags only cleared by the first init)",
+ "C01-H": "a user start vector that is an eigenvector to working accuracy (residual of the step-1 factorization at rounding level but not exactly zero)",
+ "C02-G": "compute(); eigenvectors(); compute(other sorting/selection) converging without a restart; eigenvectors() (a mutable cache that only restart() and init() drop)",
+ "C02-H": "an exact breakdown where A*random already lies in the Krylov space: general low-rank matrix of rank < ncv - 1",
+ "C03-G": "SymShiftInvert<Sparse, Dense> with UploA != UploB and a sparse A that stores only its UploA triangle",
+ "C03-H": "the caller's sigma variable changes after the solver was constructed (the solver keeps a reference instead of a copy)",
+ "C04-G": "Cayley mode, a magnitude rule, an interior shift with the nev-th and (nev+1)-th candidates on opposite sides of sigma (two cooperating sites)",
+ "C04-H": "the Davidson solver with BothEnds or a magnitude rule on an indefinite matrix (inverse permutation in RitzPairs::sort)",
+ "C05-G": "init(v) with v exactly in the null space of the operator (zero matrix, graph Laplacian with the vector of ones)",
+ "C05-H": "a compute() that leaves flags set, then compute(sel, maxit = 0) without init()",
+ "C06-G": "GenEigsComplexShiftSolver whose compute() is rejected by the final sort (unsupported SORTING rule): the probe shift stays installed",
+ "C06-H": "a second set_shift() with another shift on the same dense shift-solve operator object (stale Bunch-Kaufman permutation)",
+ "C07-G": "general solver and an exact breakdown at a position i > m_k (start vector spanning an invariant subspace of dimension >= 2)",
+ "C07-H": "B-inner-product mode with B not a multiple of I and residual norms below sqrt(eps) in absolute terms (small-norm operator)",
+ "C10-G": "a second factorization of the same size on one BKLDLT object that does not pivot where the first one did",
+ "C10-H": "a step whose largest off-diagonal column entry lies in row n-2 with |A[n-1,n-2]| >> |A[n-2,n-2]| (column n-2 never searched below the diagonal)",
+ "C11-G": "SymShiftInvert<Sparse, Dense>, UploA != UploB, and the shift exactly 0 (a fast path that factorizes the wrong triangle)",
+ "C11-H": "the block product operator* of DenseSymMatProd on a matrix whose unused triangle is not the mirror image",
+ "C12-G": "nev == 1 and one of the four complex-only rules as SORTING argument of a symmetric-family solver (two cooperating sites)",
+ "C12-H": "PartialSVDSolver constructed with ncomp >= min(rows, cols): the new up-front check throws before the guard that releases the operator",
+ "C13-G": "exactly equal Ritz values (zero matrix, c*I, exact multiplicities) and ncv >= 17: the sort comparator is not a strict weak order",
+ "C13-H": "a second compute() without init() (Ritz value array shrunk to nev entries by the first call's final sort)",
+ "C14-G": "GenEigsComplexShiftSolver, a fault in the eigenvalue-recovery solves after the counted iteration, and an exception type outside std::exception",
+ "C14-H": "regular-inverse mode with the library's SparseRegularInverse: one CG solve fails (the user's A operator returned NaN once) and the wrapper stays failed",
+ "C15-G": "compute() ending Successful, then compute_with_guess() on the same object that does not converge (status only reset in compute())",
+ "C15-H": "a converged Ritz pair overtaken in the sorted order by an unconverged one (LargestMagn with near-equal magnitudes of opposite sign; SmallestMagn on indefinite matrices)",
+ "C16-G": "matrix_U(k1) / matrix_V(k1) with k1 < nconv followed by a request for more columns after the same compute()",
+ "C16-H": "compute() stopped by a small maxit with a lower singular triplet converged before a higher one (hole in the converged flags)",
+ "C17-G": "a pencil at a small scale (A * 1e-9) with a proportionally small tolerance, no preconditioner (absolute pivot threshold in the B-orthonormalisation)",
+ "C17-H": "compute() succeeds, setB(another B), compute() again on the same object (warm start skips the B-orthonormalisation); patch rebased after fix 662fdf6",
+ "C20-G": "solvers of one instantiation but different n in one process, the other one reaching Lanczos::factorize_from first, and a near-breakdown residual between eps*sqrt(n_a) and eps*sqrt(n_b)",
+ "C20-H": "two threads of the same instantiation inside a breakdown restart (expand_basis) at the same time",
 }
 OUTSIDE = {
  "C14-F": "outside the fault model of C14 (the user's operator THROWS): here it returns Inf once and the library's own B wrapper turns that into a sticky failure",
@@ -95,7 +128,7 @@ OUTSIDE = {
 OTHER = {}   # sid -> [checks] when the own check misses and another catches; filled from files named <sid>@<check>.txt in DET
 n = 0
 for sid in sorted(os.listdir(os.path.join(ROOT, "seeded"))):
-    if not re.match(r"C\d\d-[CDEF]$", sid):
+    if not re.match(r"C\d\d-[C-H]$", sid):
         continue
     d = os.path.join(ROOT, "seeded", sid)
     prop = sid.split("-")[0]
@@ -103,6 +136,8 @@ for sid in sorted(os.listdir(os.path.join(ROOT, "seeded"))):
     for cdir in CONFS:
         if os.path.exists(os.path.join(cdir, sid + ".json")):
             conf = json.load(open(os.path.join(cdir, sid + ".json")))
+    if os.path.exists(os.path.join(d, "confirm.json")):
+        conf = json.load(open(os.path.join(d, "confirm.json")))
     det_txt = open(os.path.join(DET, sid + ".txt")).read() if os.path.exists(os.path.join(DET, sid + ".txt")) else ""
     m = re.search(r"%s %s rc=(\d+) nviol=(\d+) rules:\s*(.*)" % (sid, prop), det_txt)
     own = bool(m and m.group(1) == "1" and int(m.group(2)) > 0)
@@ -113,7 +148,7 @@ for sid in sorted(os.listdir(os.path.join(ROOT, "seeded"))):
         if mm and re.search(r"rc=1 nviol=[1-9]", open(os.path.join(DET, f)).read()):
             others.append(mm.group(1))
     meta = dict(
-        seed=sid, breaks_property=prop, round=2 if sid[-1] in "CD" else 3, author="independent sub-agent (saw only the property text and a scratch worktree)",
+        seed=sid, breaks_property=prop, round=2 if sid[-1] in "CD" else (3 if sid[-1] in "EF" else 4), author="independent sub-agent (saw only the property text and a scratch worktree)",
         needs_to_manifest=NEEDS.get(sid, ""),
         confirmed_by_me=dict(
             what_i_ran="tools/seedconfirm.sh: scratch worktree of /repo HEAD under /tmp: git apply patch.diff; cmake -G Ninja -B _build -DBUILD_TESTS=ON; cmake --build; ctest (all 28 executables); "
@@ -131,11 +166,11 @@ for sid in sorted(os.listdir(os.path.join(ROOT, "seeded"))):
             meta["note"] = oldm["note"]
     json.dump(meta, open(os.path.join(d, "meta.json"), "w"), indent=1)
     n += 1
-print("meta.json written for", n, "round-2/3 seeds")
+print("meta.json written for", n, "round-2/3/4 seeds")
 # round-1 seeds: refresh the detection part from the same sweep; table of all seeds
 rows = []
 for sid in sorted(os.listdir(os.path.join(ROOT, "seeded"))):
-    if not re.match(r"C\d\d-[A-F]$", sid):
+    if not re.match(r"C\d\d-[A-H]$", sid):
         continue
     prop = sid.split("-")[0]
     f = os.path.join(DET, sid + ".txt")
